@@ -383,7 +383,7 @@ func tokenizeForSemantics(content string) []semanticToken {
 		// The path of an include directive is one piece of text, whatever characters
 		// it is made of ("*.journal", "sub/2024-01.journal").
 		if inDirective && directiveType == "include" && tok.Type != parser.TokenDirective &&
-			tok.Type != parser.TokenNewline && tok.Type != parser.TokenComment {
+			tok.Type != parser.TokenNewline && tok.Type != parser.TokenComment && tok.Type != parser.TokenIndent {
 			// Blanks after the path (before a comment or the line end) are not part of it.
 			endCol := tok.End.Column - 1
 			if tok.Type == parser.TokenText {
